@@ -192,20 +192,23 @@ theorem boxEnforced_needed {x0 : K} (hx0 : inDomain x0 ty = true) (hk : 0 < k) (
 
 /-! ### the definedness hypothesis -/
 
-/-- `min x  s.t.  c: 0 * (x / 0) ≤ 1`, `x` a free real: the constraint is undefined at every assignment. -/
+/-- `min x  s.t.  c: 0 * (x + inf) ≤ 1`, `x` a free real: the constraint is undefined at every assignment
+(the literal `inf` is not a number).  (Before rooc 9f62afd the witness was `0 * (x / 0)`; the repaired
+`simplify` keeps that product, see `Rooc.Props.C10.div_preserved`.) -/
 def exUndef : Model (Ext K) :=
   { optType := .min, objective := .var "x",
-    constraints := [{ name := "c", lhs := .bin .mul (.num (.fin 0)) (.bin .div (.var "x") (.num (.fin 0))),
+    constraints := [{ name := "c", lhs := .bin .mul (.num (.fin 0)) (.bin .add (.var "x") (.num .pinf)),
                       cmp := .le, rhs := .num (.fin 1), isAssert := false }],
     domain := [{ name := "x", ty := .real .ninf .pinf, usage := 1 }] }
 
 def exUndefC : Constraint (Ext K) :=
-  { name := "c", lhs := .bin .mul (.num (.fin 0)) (.bin .div (.var "x") (.num (.fin 0))),
+  { name := "c", lhs := .bin .mul (.num (.fin 0)) (.bin .add (.var "x") (.num .pinf)),
     cmp := .le, rhs := .num (.fin 1), isAssert := false }
 
-theorem exUndef_norm_lhs : normalizeExp (.bin .mul (.num (.fin 0)) (.bin .div (.var "x") (.num (.fin 0))) : Exp (Ext K))
+theorem exUndef_norm_lhs : normalizeExp (.bin .mul (.num (.fin 0)) (.bin .add (.var "x") (.num .pinf)) : Exp (Ext K))
     = some (.num (.fin 0)) := by
-  simp [normalizeExp, flattenFuel, flattenF, simplify, mulCore, divCore, isNumEq, ext_eq_fin]
+  simp [normalizeExp, flattenFuel, flattenF, simplify, mulCore, addCore, isNumEq, mayBeUndefined, ext_eq_fin,
+    Arith.eq, Ext.eq]
 
 theorem exUndef_norm_rhs : normalizeExp (.num (.fin 1) : Exp (Ext K)) = some (.num (.fin 1)) := by
   simp [normalizeExp, flattenFuel, flattenF, simplify]
@@ -252,8 +255,8 @@ theorem exUndef_not_srcFeasible (ρ : String → K) : ¬ srcFeasible (exUndef : 
   have := ((srcFeasible_iff _ _).mp h).1 exUndefC (by simp [exUndef, exUndefC])
   simp [constraintHolds, exUndefC, eval, binVal] at this
 
-/-- **Why definedness is a hypothesis**: `c: 0 * (x / 0) ≤ 1` has no value at any assignment (division by
-zero), so the source model is infeasible; `simplify` folds the product to `0`, the comparison becomes the
+/-- **Why definedness is a hypothesis**: `c: 0 * (x + inf) ≤ 1` has no value at any assignment (a
+non-finite literal), so the source model is infeasible; `simplify` folds the product to `0`, the comparison becomes the
 tautology `0 ≤ 1` and is dropped: every assignment is feasible for the linear model.  Everything else
 `c01_partial` asks for holds (the model is affine, the bounds map is empty). -/
 theorem defined_needed :
